@@ -760,6 +760,11 @@ func runSched(c caseIn) *caseOut {
 				case "L":
 					host := string(unhx(op.Host))
 					pm, err := domainproxy.VerifLookup(mod, host)
+					if err == nil && tc.faulted > 0 {
+						// a repository read of this very lookup failed: the request must be rejected, no source may answer
+						r.fail("lookup-routed-despite-storage-fault", fmt.Sprintf("lookup of Host %q: storage call(s) %v of caller %d were made to fail (%d in this lookup), yet the request is routed to client %d (%s)",
+							host, tc.faultLog, i, tc.faulted, pm.TargetClientID, pm.ID))
+					}
 					if err == nil && strings.HasPrefix(pm.ID, "hdm_") {
 						r.checkRouted(i, host, pm, tc.lastRec, tc.lastRecOK)
 					}
@@ -1158,6 +1163,8 @@ func runCase(raw json.RawMessage) interface{} {
 		return runBackends(c)
 	case "registry":
 		return runRegistry(raw)
+	case "adapter":
+		return runAdapter(raw)
 	}
 	return runSched(c)
 }
@@ -1222,6 +1229,22 @@ func deleteShape() (guarded, indexFirst bool) {
 	return
 }
 
+// lookupErrorStops: with the repository's reads failing and a legacy registry entry for the Host, is the request rejected?
+type failingReads struct{ *memory.Storage }
+
+func (f *failingReads) Get(key string) (any, error) { return nil, errInjected }
+
+func lookupErrorStops() bool {
+	ctx, cancel := context.WithCancel(context.Background())
+	defer cancel()
+	bases := []string{"tunnox.net"}
+	repo := repos.NewHTTPDomainMappingRepository(repos.NewRepository(&failingReads{memory.New(ctx)}), bases)
+	reg := httpservice.NewDomainRegistry(bases)
+	reg.Rebuild([]*models.PortMapping{mkPM(pmIn{Sub: "probe", Base: "tunnox.net", ID: 1, Client: 7, Tgt: 7, Active: true}, time.Now().Unix())})
+	_, err := domainproxy.VerifLookup(newModule(ctx, repo, reg, nil, bases), "probe.tunnox.net")
+	return err != nil
+}
+
 // counterNeverExpires: after a CreateMapping on the default store, does the id counter key carry no deadline,
 // and is it created by a SetNX that precedes Incr?
 func counterNeverExpires() bool {
@@ -1272,6 +1295,7 @@ func gen() {
 	guarded, indexFirst := deleteShape()
 	fmt.Printf("Definition delete_is_guarded : bool := %v.\n", guarded)
 	fmt.Printf("Definition delete_index_before_record : bool := %v.\n", indexFirst)
+	fmt.Printf("Definition lookup_error_stops : bool := %v.\n", lookupErrorStops())
 	fmt.Printf("Definition counter_never_expires : bool := %v.\n", counterNeverExpires())
 	fmt.Printf("Definition counter_ttl_seconds : N := %d%%N.\n", int64(constants.DefaultDataTTL/time.Second))
 	cfg := hybrid.DefaultConfig()
